@@ -76,6 +76,7 @@ type Opts struct {
 	Media       bool
 	MaxSvcs     int
 	MaxRoutes   int
+	WildHeavy   bool // most routes end in a tail wildcard (streams about the value it is bound to)
 	Faults      bool // fault traffic between the judged requests (routing.Fault)
 	Contest     bool // now and then a table of masks of one literal path (genContest)
 	Adversarial bool // free-form paths, odd bytes
@@ -324,6 +325,15 @@ func GenConfig(r *rng.R, o Opts) Config {
 				}
 			} else {
 				rel = genToks(r, o, r.Intn(4), &names, false)
+			}
+			if o.WildHeavy && o.AllowWild && r.Chance(2, 3) {
+				names++
+				w := Tok{Kind: "wild", Name: fmt.Sprintf("v%d", names)}
+				if len(rel) > 0 && r.Chance(1, 2) {
+					rel[len(rel)-1] = w
+				} else {
+					rel = append(rel, w)
+				}
 			}
 			// a tail wildcard may only be last
 			for i := range rel {
